@@ -390,8 +390,9 @@ def apply_ghost(text, label, ghost, report):
             else:
                 extra_items.append("#[verifier::external_body]\nfn %s(%s) -> %s\n%s\n%s\n" % (
                     fname, params, ret, contract, body_txt))
+                import hashlib as _hl
                 report["holes"].append({"item": label, "kind": "block hole (body kept verbatim, unverified)", "fn": fname,
-                                        "anchor": anchor, "lines": nlines,
+                                        "anchor": anchor, "lines": nlines, "sha": _hl.sha1(canon(re.sub(r"/\*@L\d+\*/", "", block)).encode()).hexdigest()[:16],
                                         "assumed": [l.strip() for l in body if l.strip()]})
     for kind, arg, body in secs:
         if kind == "closure":
